@@ -783,8 +783,8 @@ def process_transition(
     :type agents: List[str]
     """
     transition_list = list(transitions)
-    for transition, name in zip(transition_list, transition_names):
-        transition = {
+    for idx, (transition, name) in enumerate(zip(transition_list, transition_names)):
+        transition_list[idx] = {
             agent: (
                 transition[agent]
                 if agent in transition.keys()
